@@ -26,13 +26,13 @@ def plan(tier):
 
 
 def floors(tier):
-    return {"min_decided": 150, "counters": {"children_compared": 300, "dates_compared": 10000, "children_never_funded": 5, "children_with_substrategies": 40}, "max_undecided_frac": 0.3}
+    return {"min_decided": 150, "counters": {"children_compared": 300, "dates_compared": 10000, "children_never_funded": 5, "children_with_substrategies": 40, "children_with_own_commissions": 60}, "max_undecided_frac": 0.3}
 
 
 def run_case(unit, cs, idx, build, params):
     ins.install()
     ins.reset()
-    spec = w2.gen(cs, nested_p=1.0, deterministic=True, zero_weight_child=True, flows=True, pte=False, deep_p=0.4)
+    spec = w2.gen(cs, nested_p=1.0, deterministic=True, zero_weight_child=True, flows=True, pte=False, deep_p=0.4, node_comms=0.3)
     sig = w2.signature(spec)
     sample = w2.sample_of(spec)
     run = w2.run(spec)
@@ -51,8 +51,11 @@ def run_case(unit, cs, idx, build, params):
         tpl = w2.mk_strategy(node, ctx)
         random.seed(spec["cs"])
         np.random.seed(spec["cs"] % (2 ** 32))
+        # same settings: the backtest-level commission function if there is one, else the definition's own schedule (applied by mk_strategy)
         t2 = bt.Backtest(tpl, data, integer_positions=spec["integer"], commissions=(ins.Comm(spec["comm"]) if spec["comm"] != "none" else None),
                          additional_data=dict(extras))
+        if "node_comms" in spec["desc"]:
+            common.bump(cnt, "children_with_own_commissions")
         mark = len(ins.EV)
         try:
             t2.run()
